@@ -224,6 +224,34 @@ def run_corpus(ctx, spec, hbin, drv, extra=()):
     return compare_cases(ctx, hbin, drv, cases, extra)
 
 
+def cross_sample(ctx, spec, hbin, drv, extra):
+    """the vm_compute cross-run on a deterministic sample of this suite's cases"""
+    from . import cross
+    k = 2000 if ctx.tier == 'thorough' else 240
+    cmd = [hbin, spec['suite'], '--tier', 'quick', '--seed', str(ctx.seed)]
+    if spec.get('parts'):
+        cmd += ['--parts', ','.join(spec['parts'])]
+    cmd += list(extra)
+    p = subprocess.Popen(['timeout', '600'] + cmd, stdout=subprocess.PIPE, stderr=subprocess.DEVNULL)
+    lines = []
+    want = set()
+    # a spread over the stream: the first 40 lines, then every line whose index is a multiple of a stride
+    total_guess = 4000 * k
+    for i, raw in enumerate(p.stdout):
+        if raw.startswith(b'#'):
+            continue
+        if i < 40 or i % 997 == 0:
+            f = raw.decode('utf-8', 'replace').rstrip('\n').split('\t')
+            if len(f) >= 2 and f[0] in ('run', 'eval', 'set') and len(f[1]) < 1500:
+                lines.append((f[0], f[1]))
+        if len(lines) >= k:
+            break
+    p.kill()
+    p.wait()
+    n, bad = cross.cross_run(ctx, drv, lines)
+    return n, bad
+
+
 def run_suite(ctx, spec):
     t0 = time.time()
     hbin = build.harness(ctx, spec.get('profile', 'release'))
@@ -244,6 +272,13 @@ def run_suite(ctx, spec):
                 corpus_cases=(csum or {}).get('cases', 0), wall_s=round(time.time() - t0, 2))
     if summary.get('dist'):
         stat['distribution'] = summary['dist']
+    if spec['suite'] in ('bdd', 'text', 'set'):
+        n, bad = cross_sample(ctx, spec, hbin, drv, extra)
+        stat['vm_compute_cross_run'] = {'cases': n, 'disagreements': len(bad)}
+        if bad:
+            ctx.violation({'kind': 'correspondence', 'suite': spec['suite'], 'key': 'cross:%s' % spec['suite'],
+                           'broken_correspondence': 'the extracted model (OCaml driver) and the same definitions evaluated by vm_compute inside Coq disagree: the model-execution route itself is broken',
+                           'detail': [list(b) for b in bad[:5]]}, no_input=True)
     ctx.suite_stats.append(stat)
     if rc != 0:
         ctx.violation({'kind': 'correspondence', 'suite': spec['suite'], 'key': 'harness-exit:%s' % spec['suite'],
